@@ -52,42 +52,46 @@ func c02dedup(c *Ctx, r *Report, fn *ssa.Function, rule string) {
 		n++
 		o := r.Add(rule, where, "return fbb.Reject", c.pos(ret.Pos()))
 		good, why := false, "the return is not on the success edge of an existence test of the inbox file"
-		for _, cd := range condsAt(ret.Block()) {
-			b, ok := cd.V.(*ssa.BinOp)
-			if !ok || !isNilConst(b.Y) {
-				continue
+		// One verdict per way the return can be reached: a guarding condition that is the boolean
+		// result of a same-package helper - `received, err := h.inInbox(mid)` - is read through the
+		// returns of that helper that can yield the value, with the conditions dominating each such
+		// return and the helper's parameters bound to the arguments of the call (ipG2.ways,
+		// j5TupleWays in ip_j5.go). Every way must contain the success edge of an existence test of
+		// in/<MID>.b2f. On a function that tests the file itself there is exactly one way: the
+		// conditions that dominate the return.
+		ipi := newIPI1(c, pkgRel(fn))
+		alts := ipi.guardsOf(ret.Block())
+		nGood := 0
+		for _, w := range alts {
+			wayGood := false
+			for _, cd := range w.conds {
+				call, name, success, isTest := j5ExistenceTest(cd)
+				if !isTest {
+					continue
+				}
+				if !success {
+					why = "Reject is returned on the error edge of " + name
+					continue
+				}
+				arg := call.Call.Args[0]
+				// the name may be built by a same-package helper: dependence with parameters bound per call (ip_i1.go)
+				inbox := ipi.dependsOn(arg, cd.fr, func(v ssa.Value) bool { s, ok := constString(v); return ok && s == "/in/" })
+				mid := ipi.dependsOn(arg, cd.fr, func(v ssa.Value) bool {
+					cl, ok := v.(*ssa.Call)
+					return ok && callName(&cl.Call) == "fbb.Proposal.MID"
+				})
+				ext := ipi.dependsOn(arg, cd.fr, func(v ssa.Value) bool { s, ok := constString(v); return ok && s == ".b2f" })
+				if inbox && mid && ext {
+					wayGood = true
+				} else {
+					why = fmt.Sprintf("the file tested is not in/<MID>.b2f (inbox=%v, MID=%v, extension=%v)", inbox, mid, ext)
+				}
 			}
-			ex, ok := b.X.(*ssa.Extract)
-			if !ok {
-				continue
-			}
-			call, ok := ex.Tuple.(*ssa.Call)
-			if !ok {
-				continue
-			}
-			name := callName(&call.Call)
-			if name != "os.Open" && name != "os.Stat" && name != "os.Lstat" && name != "os.OpenFile" {
-				continue
-			}
-			if (b.Op == token.EQL) != cd.Truth {
-				why = "Reject is returned on the error edge of " + name
-				continue
-			}
-			arg := call.Call.Args[0]
-			// the name may be built by a same-package helper: dependence with parameters bound per call (ip_i1.go)
-			ipi := newIPI1(c, pkgRel(fn))
-			inbox := ipi.dependsOn(arg, nil, func(v ssa.Value) bool { s, ok := constString(v); return ok && s == "/in/" })
-			mid := ipi.dependsOn(arg, nil, func(v ssa.Value) bool {
-				cl, ok := v.(*ssa.Call)
-				return ok && callName(&cl.Call) == "fbb.Proposal.MID"
-			})
-			ext := ipi.dependsOn(arg, nil, func(v ssa.Value) bool { s, ok := constString(v); return ok && s == ".b2f" })
-			if inbox && mid && ext {
-				good = true
-			} else {
-				why = fmt.Sprintf("the file tested is not in/<MID>.b2f (inbox=%v, MID=%v, extension=%v)", inbox, mid, ext)
+			if wayGood {
+				nGood++
 			}
 		}
+		good = len(alts) > 0 && nGood == len(alts)
 		if good {
 			o.OK("returned only when in/<MID>.b2f could be opened (with C11: a complete copy is stored)")
 		} else {
